@@ -10,6 +10,9 @@
    definitions
      crystal <id> <name> a b c alpha beta gamma volume natoms {Z fraction x y z}   -> def <id>
      builtin <id> <name>            the library's own entry (Crystal_GetCrystal)      -> def <id> | def-missing
+     viaadd <id> <name> …           same payload as `crystal`; the struct (carrying a STALE volume) goes through Crystal_AddCrystal into a
+                                    private array and what Crystal_GetCrystal hands out becomes crystal <id>      -> def <id> | def-missing
+     viafile <path> <id> <name>     Crystal_ReadFile(path) into a private array, Crystal_GetCrystal(name) becomes crystal <id> -> def <id> | def-missing
      dump                           every built-in crystal in `crystal` syntax (ids 0..), then `end`
      allsafe <0|1>                  1: the oracle may call the library with any Miller indices (tree has repair C13-5)  -> def allsafe
      zeros                          knots of the Fi / Fii tables whose ordinate is exactly 0: `zeros {fi|fii}:Z:<E>...`
@@ -24,6 +27,7 @@
      fh2   …                        Crystal_F_H_StructureFactor2           ok <re> <im> <slot>
      fhp   C E i j k debye rel f0 fp fpp S   …_Partial                     ok <re> <im> <slot>
      fhp2  …                        …_Partial2                             ok <re> <im> <slot>
+     stored2 C                      the volume member of the struct and Crystal_UnitCellVolume of it   ok <stored> <recomputed> E
      cabs  re im                    c_abs                     ok <v>
      cmul  re im re im              c_mul                     ok <re> <im>
    oracle inputs of the model (the elemental factors are PARAMETERS of the model; their values are read from the
@@ -31,6 +35,7 @@
    public scalar results, and never die:
      aux   C E i j k rel            -> aux d=<dSpacing|-> th=<Bragg|-> q=<Q|-> ; {Z:ff:fferr:fi:fierr:fii:fiierr}
                                        elemental values FF_Rayl(Z,q), Fi(Z,E), Fii(Z,E) for every distinct Zatom of C
+     auxd  C E i j k rel            -> aux d=… th=… q=… ;            (no elemental values: Bragg / Q lines need none)
      auxaf Z E q                    -> aux d=- th=- q=<q> ; Z:…
    slot answers: N | E | F<code>:<message>     (err fields of aux: - | <code>/<message with blanks as _>) */
 #include "config.h"
@@ -95,7 +100,7 @@ int main(void) {
     for (char *p = strtok(line, " \n"); p && n < (1 << 16); p = strtok(NULL, " \n")) t[n++] = p;
     if (n == 0) continue;
     const char *op = t[0];
-    if (!strcmp(op, "crystal") && n >= 11) {
+    if ((!strcmp(op, "crystal") || !strcmp(op, "viaadd")) && n >= 11) {
       int id = atoi(t[1]), na = atoi(t[10]);
       if (id < 0 || id >= MAXC || n != 11 + 5 * na) { printf("bad-op\n"); continue; }
       Crystal_Struct *c = malloc(sizeof *c);
@@ -106,7 +111,27 @@ int main(void) {
         char **a = t + 11 + 5 * i;
         c->atom[i].Zatom = atoi(a[0]); c->atom[i].fraction = pd(a[1]); c->atom[i].x = pd(a[2]); c->atom[i].y = pd(a[3]); c->atom[i].z = pd(a[4]);
       }
+      if (op[0] == 'v') {
+        /* user-supplied crystal through the public route; the caller's struct carries a stale volume */
+        Crystal_Array *arr = Crystal_ArrayInit(2, NULL); Crystal_Struct *g = NULL;
+        c->volume = c->volume * 1.25 + 1.0;
+        if (arr && Crystal_AddCrystal(c, arr, NULL)) g = Crystal_GetCrystal(c->name, arr, NULL);
+        Crystal_Free(c);                         /* the array holds its own copy, `g` is a copy of that */
+        if (arr) Crystal_ArrayFree(arr);
+        if (!g) { printf("def-missing\n"); continue; }
+        c = g;
+      }
       cr[id] = c; printf("def %d\n", id);
+    } else if (!strcmp(op, "viafile") && n == 4) {
+      int id = atoi(t[2]);
+      Crystal_Array *arr = Crystal_ArrayInit(2, NULL); Crystal_Struct *g = NULL;
+      if (arr && id >= 0 && id < MAXC && Crystal_ReadFile(t[1], arr, NULL)) g = Crystal_GetCrystal(t[3], arr, NULL);
+      if (arr) Crystal_ArrayFree(arr);
+      if (!g) printf("def-missing\n"); else { cr[id] = g; printf("def %d\n", id); }
+    } else if (!strcmp(op, "stored2") && n == 2) {
+      Crystal_Struct *c = C(t[1]);
+      if (!c) { printf("ok"); pr_d(0.0); pr_d(0.0); printf(" N\n"); continue; }
+      printf("ok"); pr_d(c->volume); pr_d(Crystal_UnitCellVolume(c, NULL)); printf(" E\n");
     } else if (!strcmp(op, "builtin") && n == 3) {
       int id = atoi(t[1]);
       Crystal_Struct *c = Crystal_GetCrystal(t[2], NULL, NULL);
@@ -183,7 +208,7 @@ int main(void) {
       xrlComplex x = {pd(t[1]), pd(t[2])}; printf("ok"); pr_d(c_abs(x)); putchar('\n');
     } else if (!strcmp(op, "cmul") && n == 5) {
       xrlComplex x = {pd(t[1]), pd(t[2])}, y = {pd(t[3]), pd(t[4])}, z = c_mul(x, y); printf("ok"); pr_d(z.re); pr_d(z.im); putchar('\n');
-    } else if (!strcmp(op, "aux") && n == 7) {
+    } else if ((!strcmp(op, "aux") || !strcmp(op, "auxd")) && n == 7) {
       Crystal_Struct *c = C(t[1]); double E = pd(t[2]), q = 0, d = 0, th = 0; int i = atoi(t[3]), j = atoi(t[4]), k = atoi(t[5]);
       /* int products 2*i*j of Crystal_dSpacing overflow for |i*j| >= 2^30: keep the oracle calls inside the safe range */
       int safe = all_miller_safe || (i >= -32767 && i <= 32767 && j >= -32767 && j <= 32767 && k >= -32767 && k <= 32767);
@@ -192,7 +217,7 @@ int main(void) {
       if (safe) q = Q_scattering_amplitude(c, E, i, j, k, pd(t[6]), NULL);
       pr_opt("d", c && safe, d); pr_opt("th", c && safe, th); pr_opt("q", safe, q);
       printf(" ;");
-      if (c && safe) for (int a = 0; a < c->n_atom; a++) {
+      if (c && safe && op[3] != 'd') for (int a = 0; a < c->n_atom; a++) {
         int Z = c->atom[a].Zatom, seen = 0;
         for (int b = 0; b < a; b++) if (c->atom[b].Zatom == Z) { seen = 1; break; }
         if (!seen) pr_elem(Z, E, q);
